@@ -63,11 +63,12 @@ func rowOK(r arity.Row) bool {
 	return mx == r.Max || (mx < 0 && r.Max < 0)
 }
 
+// never probed: they leave the process, sleep, block on input, change the file system or talk to the
+// outside. Output functions are probed (an arity error is raised before anything is written).
 var danger = []string{"exit", "quit", "bye", "sleep", "read", "load", "run", "shell", "system", "watch", "repl", "edit", "debug",
 	"break", "step", "app", "snapshot", "require", "open", "delete", "rename", "probe", "ensure", "directory", "wait", "listen",
-	"accept", "connect", "send", "recv", "http", "socket", "file", "stream", "with-", "signal", "kill", "abort", "halt", "trace",
-	"channel", "mutex", "lock", "time", "gc", "room", "dribble", "ed", "inspect", "describe", "apropos", "format", "print", "write",
-	"princ", "prin1", "terpri", "fresh-line", "y-or-n", "yes-or-no", "prompt", "input", "clear"}
+	"accept", "connect", "send", "recv", "http", "socket", "file", "with-", "signal", "kill", "abort", "halt", "trace",
+	"channel", "mutex", "lock", "time", "gc", "room", "dribble", "ed", "inspect", "y-or-n", "yes-or-no", "prompt", "input"}
 
 func dangerous(name string) bool {
 	if strings.HasPrefix(name, "with-") {
